@@ -11,7 +11,7 @@ func init() {
 	register(&propSpec{ID: "C11", Level: "other", Run: runC11,
 		Canary: []CanaryExpect{{Rule: "ELEMENTWISE", Bad: "canaryBadPrevCache", Good: "canaryGoodNoState"}, {Rule: "ELEMENTWISE", Bad: "canaryBadCarriedTile", Good: "canaryGoodNoState"}, {Rule: "CACHE-KEY", Bad: "canaryBadMemoKey", Good: "canaryGoodMemoKey"},
 			{Rule: "KIND-STORE", Bad: "canaryBadNarrowIndex", Good: "canaryGoodWideIndex"}, {Rule: "KIND-LAYOUT", Bad: "canaryBadTrimCutset", Good: "canaryGoodTrimPrefix"},
-			{Rule: "KIND-STORE", Bad: "canaryBadQuadkeyFloat", Good: "canaryGoodQuadkeyInt"}, {Rule: "UNTRIMMED", Bad: "canaryBadUntrimmed", Good: "canaryGoodTrimmed"}, {Rule: "UNTRIMMED", Bad: "canaryBadUntrimmed", Good: "canaryGoodFullFill"}},
+			{Rule: "KIND-STORE", Bad: "canaryBadQuadkeyFloat", Good: "canaryGoodQuadkeyInt"}, {Rule: "UNTRIMMED", Bad: "canaryBadUntrimmed", Good: "canaryGoodTrimmed"}, {Rule: "UNTRIMMED", Bad: "canaryBadUntrimmed", Good: "canaryGoodFullFill"}, {Rule: "ECHO", Bad: "canaryBadEcho", Good: "canaryGoodEcho"}},
 		Explain: otherNote + "C11: decided = groups report the request's zooms/height/base parameters unchanged (argument kinds at the constructors); a pair is appended only behind a miss on the cross-ID map; per-ID scratch lists are fresh; per-axis zoom change is integrate.HorizontalZoom/VerticalZoom with correctly wired roles; encoder/decoder are integer-only; zoom domain and malformed-ID guards. Bit-interleaving bijectivity is NOT decided."})
 	register(&propSpec{ID: "C12", Level: "other", Run: runC12,
 		Explain: otherNote + "C12: decided = every resolution change of a vertical index/key is a signed shift (floor); all callers consume both bounds (known finding for the detector under C05); index-existence tests accept exactly [-2^z,2^z-1] / [0,2^z-1]; both returned bounds are range-checked; the scale(index+1)-1 form is guarded or clamped; failure returns carry (0,0). The interval-cover arithmetic itself is NOT decided.",
@@ -123,6 +123,7 @@ func runC11(w *World, r *Report, tier string) {
 			r.add("REUSE", n, w.Pos(f.Pos()), Undecided, "the conversion no longer goes through integrate.HorizontalZoom / VerticalZoom: equality with the zoom change of C03 cannot be read off the call graph")
 		}
 	}
+	ruleEcho(w, r, lookupByName(w, names[2]), lookupByName(w, names[3]), lookupByName(w, names[4]), lookupByName(w, "transform.canaryBadEcho"), lookupByName(w, "transform.canaryGoodEcho"))
 	ruleErrUsed(w, r, map[*ssa.Function]bool{lookupByName(w, names[2]): true, lookupByName(w, names[3]): true, lookupByName(w, names[4]): true})
 	guardRows(w, r, "C11")
 }
